@@ -265,6 +265,13 @@ def c20(pid, tier, replay):
             for cancel in (-1, 0, 1, 2999, 3000, 3001, 7500, 116999, 117001, 130000):
                 scen.append({"kind": "retry", "id": "C20-retry-%04d" % n, "outcomes": o, "cancel_ms": cancel})
                 n += 1
+        # the debug HTTP task itself on a loopback address (real time): free address, address occupied across the first
+        # attempt(s), cancellation while waiting for the next attempt, immediate cancellation
+        https = [(0, 600), (0, 0), (1500, 1000), (1500, 6500)]
+        if tier == "thorough":
+            https += [(0, 2500), (2999, 6200), (3500, 9500), (3500, 4500), (200, 100)]
+        for j, (busy, cancel) in enumerate(https):
+            scen.append({"kind": "http", "id": "C20-http-%02d" % j, "busy_ms": busy, "cancel_ms": cancel})
     nshards = min(vf.NCPU, max(1, len(scen) // 60))
     shards = [scen[i::nshards] for i in range(nshards)]
 
